@@ -76,10 +76,11 @@ func VerifC19LoadArbitraryCsv() {
 }
 
 // Hostile file-system states: missing table, table in a missing directory, a directory in place of
-// a table, a removed working directory, an injected I/O fault: every statement ends with an
+// a table, a removed working directory (also for SHOW RUNINFO and the runtime information), an injected I/O
+// fault: every statement ends with an
 // ordinary error.
 func VerifC19FileStates() {
-	state := verifChoice("state", 7)
+	state := verifChoice("state", 9)
 	tx := verifNewTx()
 	tx.Flags.Quiet = true
 	proc := NewProcessor(tx)
@@ -97,6 +98,15 @@ func VerifC19FileStates() {
 		verifFileWrite("t.csv", "a\n1\n")
 		verifFileRemove(".")
 		stmts = verifParse("select * from t;")
+	case 7:
+		// session statements in a removed working directory
+		verifFileWrite("t.csv", "a\n1\n")
+		verifFileRemove(".")
+		stmts = verifParse("show runinfo;")
+	case 8:
+		verifFileWrite("t.csv", "a\n1\n")
+		verifFileRemove(".")
+		stmts = verifParse("show tables; select @#working_directory;")
 	case 4:
 		verifFileWrite("t.csv", "a\n1\n")
 		verifFaults(1)
